@@ -135,7 +135,21 @@ func checkC17(e *env) {
 		gmodels = e.drv.AskAll(gops)
 	}
 	for i, p := range parents {
-		zs := pointindex.XGetQuadrantZs(uint(interleaveSpec(p.x, p.y)))
+		var zs [4]morton.Z
+		panicked := func() (msg string) {
+			defer func() {
+				if rec := recover(); rec != nil {
+					msg = fmt.Sprint(rec)
+				}
+			}()
+			zs = pointindex.XGetQuadrantZs(morton.Z(interleaveSpec(p.x, p.y)))
+			return ""
+		}()
+		if panicked != "" {
+			r.count("gqz", gops[i], true)
+			r.violation(Violation{Oracle: "children-keys", Op: gops[i], Impl: "panic", Detail: fmt.Sprintf("getQuadrantZs of the key of (%d,%d), both below 2^31, panics: %s", p.x, p.y, panicked)})
+			continue
+		}
 		impl := fmt.Sprintf("%d %d %d %d", zs[0], zs[1], zs[2], zs[3])
 		r.count("gqz", gops[i], bits.OnesCount64(p.x)+bits.OnesCount64(p.y) >= 2)
 		if gmodels != nil && impl != gmodels[i] {
